@@ -72,7 +72,7 @@ pub(crate) mod kani_verif {
             }
         };
     }
-    // @h name=c02_lmots_kc_n16_w8 props=C02,C06!,C12,C01 tier=quick kind=proved cfg=w8 timeout=2400 funcs=lm_ots::verify::generate_public_key_candidate;HashChainArray::new;HashChainArray::push;HashChainArray::as_slice;InMemoryLmotsSignature::get_signature_data contract="RFC 8554 Alg. 4b: Q = H(I||u32(q)||D_MESG||C||msg), z_i = do_hash_chain(i, y_i, coef(Q||Cksm(Q), i, w), 2^w-1), Kc = H(I||u32(q)||D_PBLC||z_0..z_{p-1}); every signature/I/q/3-byte message; every hash function; n=16, w=8"
+    // @h name=c02_lmots_kc_n16_w8 props=C02,C06,C12,C01 tier=thorough kind=proved cfg=w8 timeout=2400 funcs=lm_ots::verify::generate_public_key_candidate;HashChainArray::new;HashChainArray::push;HashChainArray::as_slice;InMemoryLmotsSignature::get_signature_data contract="RFC 8554 Alg. 4b: Q = H(I||u32(q)||D_MESG||C||msg), z_i = do_hash_chain(i, y_i, coef(Q||Cksm(Q), i, w), 2^w-1), Kc = H(I||u32(q)||D_PBLC||z_0..z_{p-1}); every signature/I/q/3-byte message; every hash function; n=16, w=8"
     h!(c02_lmots_kc_n16_w8, check_kc::<16, 320, 308, 3>(8), 48);
     // @h name=c02_lmots_kc_n32_w8 props=C02,C06,C12,C01 tier=thorough kind=proved cfg=w8 timeout=3600 funcs=lm_ots::verify::generate_public_key_candidate contract="same, n=32, w=8 (p=34)"
     h!(c02_lmots_kc_n32_w8, check_kc::<32, 1120, 1124, 3>(8), 150);
@@ -110,12 +110,12 @@ pub(crate) mod kani_verif {
         }
         kani::cover!(true, "reachable");
     }
-    // @h name=c02_hca_w8 props=C02,C06!,C01 tier=quick kind=bounded cfg=default timeout=900 funcs=HashChainArray::new;HashChainArray::push;HashChainArray::as_slice note="element contents are a concrete pattern (data-independent copying code)" contract="container contract assumed by Verus unit v4_lmots_verify: capacity p(32,w), push appends, as_slice returns the pushed sequence in order; W8 (34 elements)"
+    // @h name=c02_hca_w8 props=C02,C06!,C01! tier=quick kind=bounded cfg=default timeout=900 funcs=HashChainArray::new;HashChainArray::push;HashChainArray::as_slice note="element contents are a concrete pattern (data-independent copying code)" contract="container contract assumed by Verus unit v4_lmots_verify: capacity p(32,w), push appends, as_slice returns the pushed sequence in order; W8 (34 elements)"
     h!(c02_hca_w8, check_hca(8), 40);
-    // @h name=c02_hca_w4 props=C02,C06!,C01 tier=quick kind=bounded cfg=default timeout=900 funcs=HashChainArray::new;HashChainArray::push;HashChainArray::as_slice contract="same, W4 (67 elements)"
+    // @h name=c02_hca_w4 props=C02,C06,C01 tier=thorough kind=bounded cfg=default timeout=900 funcs=HashChainArray::new;HashChainArray::push;HashChainArray::as_slice contract="same, W4 (67 elements)"
     h!(c02_hca_w4, check_hca(4), 72);
-    // @h name=c02_hca_w2 props=C02,C06,C01 tier=quick kind=bounded cfg=default timeout=1200 funcs=HashChainArray::new;HashChainArray::push;HashChainArray::as_slice contract="same, W2 (133 elements)"
+    // @h name=c02_hca_w2 props=C02,C06,C01 tier=thorough kind=bounded cfg=default timeout=1200 funcs=HashChainArray::new;HashChainArray::push;HashChainArray::as_slice contract="same, W2 (133 elements)"
     h!(c02_hca_w2, check_hca(2), 140);
-    // @h name=c02_hca_w1 props=C02,C06,C01 tier=quick kind=bounded cfg=default timeout=1800 funcs=HashChainArray::new;HashChainArray::push;HashChainArray::as_slice contract="same, W1 (265 elements)"
+    // @h name=c02_hca_w1 props=C02,C06,C01 tier=thorough kind=bounded cfg=default timeout=1800 funcs=HashChainArray::new;HashChainArray::push;HashChainArray::as_slice contract="same, W1 (265 elements)"
     h!(c02_hca_w1, check_hca(1), 270);
 }
